@@ -365,4 +365,311 @@ theorem huffEncode_length_le (s : Bytes) : (huffEncode s).length ≤ 4 * s.lengt
   have := huffBits_length_le s
   omega
 
+/-! ### soundness: whatever the automaton accepts is a walk of the code tree -/
+
+theorem nibble_sim_rev (q x : Nat) (hq : q < 256) (hx : x < 16) {st' : Nat} {acc : Bool}
+    {sym : Option UInt8} (h : huffStep q x = some (st', acc, sym)) :
+    ∃ t' p' o, trun (descend hpackHuffTree (pathOf q)) (pathOf q) (bits4 x) [] = some (t', p', o) ∧
+      st' < 256 ∧ pathOf st' = p' ∧ acc = accepting p' ∧ o = (pushSym sym []).map UInt8.toNat := by
+  have hc := cert_ok
+  unfold certAll at hc
+  rw [List.all_eq_true] at hc
+  have hrow := hc q (by simp [List.mem_range]; exact hq)
+  unfold certRow at hrow
+  split at hrow
+  · rename_i l r hd
+    rw [List.all_eq_true] at hrow
+    have hchk := hrow x (by simp [List.mem_range]; exact hx)
+    rw [← hd] at hchk
+    unfold certCheck at hchk
+    rcases he : huffEntry q x with ⟨st0, fl, sy⟩
+    simp only [he] at hchk
+    unfold huffStep at h
+    simp only [he] at h
+    cases ht : trun (descend hpackHuffTree (pathOf q)) (pathOf q) (bits4 x) [] with
+    | none =>
+      simp only [ht, ne_eq, decide_not, Bool.not_eq_eq_eq_not, Bool.not_true, decide_eq_false_iff_not,
+        Decidable.not_not] at hchk
+      simp [hchk] at h
+    | some r =>
+      obtain ⟨t', p', o⟩ := r
+      simp only [ht, Bool.and_eq_true, beq_iff_eq, decide_eq_true_eq] at hchk
+      obtain ⟨⟨⟨⟨⟨hfail, hpath⟩, hacc⟩, ho⟩, hst⟩, hsym⟩ := hchk
+      rw [if_neg (by simp [hfail])] at h
+      simp only [Option.some.injEq, Prod.mk.injEq] at h
+      obtain ⟨rfl, rfl, rfl⟩ := h
+      refine ⟨t', p', o, rfl, hst, hpath, hacc, ?_⟩
+      rw [ho]; unfold symNat
+      split <;> simp [pushSym, toUInt8_toNat_lt' sy hsym]
+  · cases hrow
+
+
+theorem trun_chain {t t1 t2 : HuffTree} {p p1 p2 a b : List Bool} {o1 o2 : List Nat}
+    (h1 : trun t p a [] = some (t1, p1, o1)) (h2 : trun t1 p1 b [] = some (t2, p2, o2)) :
+    trun t p (a ++ b) [] = some (t2, p2, o2 ++ o1) := by
+  rw [trun_append, h1]
+  simp only
+  rw [trun_out, h2]
+  rfl
+
+theorem huffDecodeAux_sound (bytes : Bytes) : ∀ (q room : Nat) (out res : Bytes), q < 256 →
+    huffDecodeAux bytes q (accepting (pathOf q)) room out = .ok res →
+    ∃ t' p' o', trun (descend hpackHuffTree (pathOf q)) (pathOf q) (bytes.flatMap bitsOfByte) [] =
+        some (t', p', o') ∧ accepting p' = true ∧
+      ∃ r : Bytes, res = out.reverse ++ r ∧ r.map UInt8.toNat = o'.reverse := by
+  induction bytes with
+  | nil =>
+    intro q room out res hq h
+    simp only [huffDecodeAux] at h
+    split at h
+    · rename_i hacc
+      simp only [Except.ok.injEq] at h
+      exact ⟨descend hpackHuffTree (pathOf q), pathOf q, [], by simp [trun], hacc, [], by simp [h], rfl⟩
+    · cases h
+  | cons b rest ih =>
+    intro q room out res hq h
+    have hhi : b.toNat / 16 < 16 := by have := b.toNat_lt; omega
+    have hlo : b.toNat % 16 < 16 := by omega
+    unfold huffDecodeAux at h
+    split at h
+    · cases h
+    · cases h1 : huffStep q (b.toNat / 16) with
+      | none => simp [h1] at h
+      | some r1 =>
+        obtain ⟨st1, a1, s1⟩ := r1
+        simp only [h1] at h
+        split at h
+        · cases h
+        · cases h2 : huffStep st1 (b.toNat % 16) with
+          | none => simp [h2] at h
+          | some r2 =>
+            obtain ⟨st2, a2, s2⟩ := r2
+            simp only [h2] at h
+            obtain ⟨t1, p1, o1, ht1, hst1, hp1, _, ho1⟩ := nibble_sim_rev q _ hq hhi h1
+            have hinv1 : t1 = descend hpackHuffTree (pathOf st1) := by
+              rw [hp1]; exact trun_inv _ ht1 rfl
+            obtain ⟨t2, p2, o2, ht2, hst2, hp2, ha2, ho2⟩ := nibble_sim_rev st1 _ hst1 hlo h2
+            have hinv2 : t2 = descend hpackHuffTree (pathOf st2) := by
+              rw [hp2]; exact trun_inv _ ht2 rfl
+            rw [ha2, ← hp2] at h
+            obtain ⟨t3, p3, o3, ht3, hacc3, r, hres, hr⟩ := ih st2 _ _ res hst2 h
+            refine ⟨t3, p3, o3 ++ (o2 ++ o1), ?_, hacc3,
+              (pushSym s1 []).reverse ++ (pushSym s2 []).reverse ++ r, ?_, ?_⟩
+            · simp only [List.flatMap_cons, bitsOfByte, List.append_assoc]
+              subst hp1 hp2
+              rw [hinv1] at ht1
+              rw [hinv2] at ht2
+              have := trun_chain ht1 (trun_chain ht2 ht3)
+              simpa [List.append_assoc] using this
+            · rw [hres, pushSym_eq s2, pushSym_eq s1 out]
+              simp [List.append_assoc]
+            · simp only [List.map_append, List.map_reverse, hr, ← ho1, ← ho2, List.reverse_append,
+                List.append_assoc]
+
+
+/-! ### the tree walk determines the bit string -/
+
+/-- all leaves with their paths -/
+def leaves : HuffTree → List (List Bool × Nat)
+  | .leaf s => [([], s)]
+  | .node l r => (leaves l).map (fun e => (false :: e.1, e.2)) ++ (leaves r).map (fun e => (true :: e.1, e.2))
+  | .none => []
+
+theorem descend_none (p : List Bool) : descend .none p = .none := by
+  induction p with
+  | nil => rfl
+  | cons b ps ih => simpa [descend, HuffTree.child] using ih
+
+theorem descend_leaf_cons (s : Nat) (b : Bool) (ps : List Bool) : descend (.leaf s) (b :: ps) = .none := by
+  simpa [descend, HuffTree.child] using descend_none ps
+
+theorem mem_leaves_of_descend : ∀ (p : List Bool) (t : HuffTree) (s : Nat),
+    descend t p = .leaf s → (p, s) ∈ leaves t := by
+  intro p
+  induction p with
+  | nil => intro t s h; simp only [descend, List.foldl_nil] at h; subst h; simp [leaves]
+  | cons b ps ih =>
+    intro t s h
+    cases t with
+    | leaf s' => rw [descend_leaf_cons] at h; cases h
+    | none => rw [descend_none] at h; cases h
+    | node l r =>
+      have hd : descend (HuffTree.node l r) (b :: ps) = descend (if b then r else l) ps := by
+        simp [descend, HuffTree.child]
+      rw [hd] at h
+      cases b with
+      | false =>
+        have := ih l s (by simpa using h)
+        simp only [leaves, List.mem_append, List.mem_map]
+        exact Or.inl ⟨(ps, s), this, rfl⟩
+      | true =>
+        have := ih r s (by simpa using h)
+        simp only [leaves, List.mem_append, List.mem_map]
+        exact Or.inr ⟨(ps, s), this, rfl⟩
+
+def leavesAll : Bool := (leaves hpackHuffTree).all fun e => decide (256 ≤ e.2) || codeNat e.2 == e.1
+
+theorem leaves_ok : leavesAll = true := by decide +kernel
+
+/-- a path that ends at the leaf of an octet is that octet's code -/
+theorem path_of_leaf (p : List Bool) (s : Nat) (h : descend hpackHuffTree p = .leaf s) (hs : s < 256) :
+    p = codeNat s := by
+  have hm := mem_leaves_of_descend p hpackHuffTree s h
+  have hall := leaves_ok
+  unfold leavesAll at hall
+  rw [List.all_eq_true] at hall
+  have := hall (p, s) hm
+  simp only [Bool.or_eq_true, decide_eq_true_eq, beq_iff_eq] at this
+  rcases this with h1 | h1
+  · omega
+  · exact h1.symm
+
+theorem trun_bits : ∀ (bits : List Bool) (t : HuffTree) (p : List Bool) (out : List Nat)
+    (t' : HuffTree) (p' : List Bool) (out' : List Nat), t = descend hpackHuffTree p →
+    trun t p bits out = some (t', p', out') →
+    ∃ syms : List Nat, out' = syms.reverse ++ out ∧ p ++ bits = syms.flatMap codeNat ++ p' ∧
+      ∀ x ∈ syms, x < 256 := by
+  intro bits
+  induction bits with
+  | nil =>
+    intro t p out t' p' out' _ h
+    simp only [trun, Option.some.injEq, Prod.mk.injEq] at h
+    obtain ⟨_, rfl, rfl⟩ := h
+    exact ⟨[], by simp, by simp, by simp⟩
+  | cons b bs ih =>
+    intro t p out t' p' out' ht h
+    simp only [trun] at h
+    cases hs : tstep t p b with
+    | none => simp [hs] at h
+    | some r =>
+      obtain ⟨t1, p1, o⟩ := r
+      simp only [hs] at h
+      have hinv := tstep_inv hs ht
+      obtain ⟨syms, hout, hbits, hlt⟩ := ih t1 p1 _ t' p' out' hinv h
+      -- what did this step do?
+      unfold tstep at hs
+      split at hs
+      · rename_i s hc
+        split at hs
+        · rename_i hs256
+          simp only [Option.some.injEq, Prod.mk.injEq] at hs
+          obtain ⟨_, rfl, rfl⟩ := hs
+          have hleaf : descend hpackHuffTree (p ++ [b]) = .leaf s := by
+            rw [descend_append, ← ht]; simpa [descend] using hc
+          have hcode := path_of_leaf _ s hleaf hs256
+          refine ⟨s :: syms, ?_, ?_, ?_⟩
+          · simp [hout, pushNat]
+          · simp only [List.nil_append] at hbits
+            rw [List.flatMap_cons, ← hcode, hbits]
+            simp [List.append_assoc]
+          · intro x hx
+            rcases List.mem_cons.mp hx with rfl | hx
+            · exact hs256
+            · exact hlt x hx
+        · cases hs
+      · rename_i l r hc
+        simp only [Option.some.injEq, Prod.mk.injEq] at hs
+        obtain ⟨_, rfl, rfl⟩ := hs
+        exact ⟨syms, by simpa [pushNat] using hout, by simpa [List.append_assoc] using hbits, hlt⟩
+      · cases hs
+
+
+/-! ### packing is injective: the octets are determined by the bit string -/
+
+theorem byteOfBits_bitsOfByte_nat : ∀ n, n < 256 → byteOfBits (bitsOfByte n.toUInt8) = n.toUInt8 := by
+  decide +kernel
+
+theorem byteOfBits_bitsOfByte (b : UInt8) : byteOfBits (bitsOfByte b) = b := by
+  have := byteOfBits_bitsOfByte_nat b.toNat b.toNat_lt
+  simpa using this
+
+theorem bitsOfByte_length (b : UInt8) : (bitsOfByte b).length = 8 := by simp [bitsOfByte, bits4]
+
+theorem bitsOfByte_eq (b : UInt8) : ∃ a0 a1 a2 a3 a4 a5 a6 a7,
+    bitsOfByte b = [a0, a1, a2, a3, a4, a5, a6, a7] := ⟨_, _, _, _, _, _, _, _, rfl⟩
+
+theorem flatMap_bits_length (src : Bytes) : (src.flatMap bitsOfByte).length = 8 * src.length := by
+  induction src with
+  | nil => rfl
+  | cons b rest ih => simp [List.flatMap_cons, bitsOfByte_length, ih]; omega
+
+theorem bitsToBytes_unique : ∀ (src : Bytes) (B : List Bool) (k : Nat), k < 8 →
+    src.flatMap bitsOfByte = B ++ List.replicate k true → bitsToBytes B = src := by
+  intro src
+  induction src with
+  | nil =>
+    intro B k _ h
+    have : B = [] := by
+      have := congrArg List.length h
+      simp at this
+      exact List.length_eq_zero_iff.mp (by omega)
+    subst this; rfl
+  | cons b rest ih =>
+    intro B k hk h
+    obtain ⟨a0, a1, a2, a3, a4, a5, a6, a7, hb⟩ := bitsOfByte_eq b
+    have hlen := congrArg List.length h
+    simp only [List.flatMap_cons, List.length_append, bitsOfByte_length, flatMap_bits_length,
+      List.length_replicate] at hlen
+    simp only [List.flatMap_cons, hb] at h
+    by_cases h8 : 8 ≤ B.length
+    · -- a full octet of B
+      rcases B with _ | ⟨c0, _ | ⟨c1, _ | ⟨c2, _ | ⟨c3, _ | ⟨c4, _ | ⟨c5, _ | ⟨c6, _ | ⟨c7, B'⟩⟩⟩⟩⟩⟩⟩⟩ <;>
+        simp at h8
+      simp only [List.cons_append, List.cons.injEq] at h
+      obtain ⟨rfl, rfl, rfl, rfl, rfl, rfl, rfl, rfl, hrest⟩ := h
+      simp only [bitsToBytes]
+      rw [ih B' k hk hrest, ← hb, byteOfBits_bitsOfByte]
+    · -- the last, partial octet
+      have hrest : rest = [] := by
+        have : rest.length = 0 := by omega
+        exact List.length_eq_zero_iff.mp this
+      subst hrest
+      simp only [List.flatMap_nil, List.append_nil] at h
+      have hk8 : k = 8 - B.length := by simp at hlen; omega
+      have hBpos : 0 < B.length := by simp at hlen; omega
+      have hcore : bitsToBytes B = [byteOfBits (B ++ List.replicate (8 - B.length) true)] := by
+        rcases B with _ | ⟨c0, _ | ⟨c1, _ | ⟨c2, _ | ⟨c3, _ | ⟨c4, _ | ⟨c5, _ | ⟨c6, _ | ⟨c7, B'⟩⟩⟩⟩⟩⟩⟩⟩ <;>
+          first
+          | rfl
+          | exact absurd hBpos (by decide)
+          | exact absurd (by simp : 8 ≤ _) h8
+      rw [hcore, ← hk8, ← h, ← hb, byteOfBits_bitsOfByte]
+
+
+theorem accepting_replicate' (p : List Bool) (h : accepting p = true) :
+    p.length < 8 ∧ p = List.replicate p.length true := by
+  simp only [accepting, Bool.and_eq_true, decide_eq_true_eq, List.all_eq_true, id_eq] at h
+  refine ⟨h.1, ?_⟩
+  exact List.eq_replicate_iff.mpr ⟨rfl, h.2⟩
+
+theorem flatMap_codeNat (r : Bytes) : (r.map UInt8.toNat).flatMap codeNat = huffBits r := by
+  simp only [huffBits, List.flatMap_map]
+  rfl
+
+/-- Whatever lshpack's Huffman decoder accepts is the canonical encoding of what
+    it returns: exactly the codes of the output octets followed by fewer than 8
+    one-bits.  (So a string with EOS inside, with padding of 8 bits or more, or
+    with a 0 bit in the padding is never accepted, and no two different inputs
+    decode to the same string.) -/
+theorem huffDecode_canonical (cap : Nat) (src s : Bytes) (h : huffDecode cap src = .ok s) :
+    src = huffEncode s := by
+  unfold huffDecode at h
+  have hacc0 : accepting (pathOf 0) = true := by rw [pathOf_zero]; rfl
+  rw [← hacc0] at h
+  obtain ⟨t', p', o', hwalk, hacc, r, hres, hr⟩ :=
+    huffDecodeAux_sound src 0 cap [] s (by decide) h
+  simp only [List.reverse_nil, List.nil_append] at hres
+  subst hres
+  rw [pathOf_zero] at hwalk
+  obtain ⟨syms, hout, hbits, _⟩ := trun_bits _ _ _ _ _ _ _ rfl hwalk
+  simp only [List.append_nil, List.nil_append] at hout hbits
+  obtain ⟨hlen, hp⟩ := accepting_replicate' p' hacc
+  have hsyms : syms = s.map UInt8.toNat := by
+    have : syms.reverse = o' := hout.symm
+    rw [← this, List.reverse_reverse] at hr
+    exact hr.symm
+  rw [hsyms, flatMap_codeNat, hp] at hbits
+  unfold huffEncode
+  exact (bitsToBytes_unique src (huffBits s) p'.length hlen hbits).symm
+
 end LtVerif.Hpack
